@@ -6,6 +6,7 @@ from hypothesis import strategies as st
 from vlib import jasm_io
 from vlib.elfw import disassemble_object
 from vlib.gen_bytes import build_object, objects
+from vlib.objsrc import contain as _contain
 from vlib.refnorm import classify_line
 from vlib.runner import Eval
 
@@ -60,35 +61,6 @@ def strategy(tier):
 
 
 _OKNAME = re.compile(r"^[a-z][a-z0-9]*$")
-
-
-def _contain(sc, path, case):
-    """The same object in another container objdump accepts: COFF (.obj, what objcopy / MSVC-style toolchains emit), a regular or thin
-    `ar` archive (deterministic mode: no timestamps).  -> (path, tag); the ELF itself if the tool refuses the object."""
-    import os
-    import subprocess
-
-    kind = case.get("container", "elf")
-    if kind == "elf":
-        return path, "container=elf"
-    d = os.path.dirname(path)
-    if kind in ("coff", "bigobj"):
-        target = ("pe-bigobj-x86-64" if kind == "bigobj" else "pe-x86-64") if case["obj"]["bits"] == 64 else "pe-i386"
-        out = os.path.join(d, "c15.obj")
-        r = subprocess.run(["objcopy", "-O", target, path, out], capture_output=True, text=True, cwd=d)
-    else:
-        out = os.path.join(d, "c15.a")
-        if os.path.exists(out):
-            os.unlink(out)
-        members = ["c15.o"]
-        if kind == "ar-two":
-            with open(path, "rb") as f, open(os.path.join(d, "c15b.o"), "wb") as g:
-                g.write(f.read())
-            members.append("c15b.o")
-        r = subprocess.run(["ar", "rcTD" if kind == "thin-ar" else "rcD", "c15.a", *members], capture_output=True, text=True, cwd=d)
-    if r.returncode != 0 or not os.path.exists(out):
-        return path, "container=elf-after-" + kind + "-refused"
-    return out, "container=" + kind
 
 
 def evaluate(case):
